@@ -14,7 +14,7 @@
 (*                  non-zero entries                                       *)
 (*   vector       : cell field                                             *)
 (***************************************************************************)
-EXTENDS FVGeometry
+EXTENDS FVGeometry, FVLimiters
 
 Axes(g) == 1..Dim(g.cls)
 
@@ -144,6 +144,32 @@ CentralRows(g, u) ==
 UpwindRows(g, u, ut) ==
   FluxRows(g, [id \in FaceIds(g) |-> RMul(u[id], UpwindWeights(g, id[1], id[2], ut[id])[1])],
               [id \in FaceIds(g) |-> RMul(u[id], UpwindWeights(g, id[1], id[2], ut[id])[2])])
+
+-----------------------------------------------------------------------------
+(* TVD correction of the upwind scheme (a vector; DESIGN appendix A).  FL(r) is the limiter:
+   a named one (FVLimiters!Psi), or the constants "zero" / "unit".                         *)
+Limit(fl, r) == IF fl = "zero" THEN RZero ELSE IF fl = "unit" THEN ROne ELSE Psi(fl, r)
+\* difference quotient across face j of the line of axis a through cell line lc
+TvdPsi(g, a, phi, fl, f, plus) ==
+  LET j == f[a]
+      N == NCells(g, a)
+      cellAt(i) == [f EXCEPT ![a] = i]
+      dphi(k) == RSub(phi[cellAt(k + 1)], phi[cellAt(k)])         \* across face k
+      grad(k) == RDiv(dphi(k), Delta(g, a, k))
+  IN  IF plus
+      THEN IF j = 0 \/ RIsZero(dphi(j)) THEN RZero
+           ELSE RMul(RMul(RHalf, Limit(fl, RDiv(grad(j - 1), grad(j)))), dphi(j))
+      ELSE IF j = N \/ RIsZero(dphi(j)) THEN RZero
+           ELSE RMul(RMul(RHalf, Limit(fl, RDiv(grad(j + 1), grad(j)))), RNeg(dphi(j)))
+\* corrected flux contribution at face id
+TvdFlux(g, u, ut, phi, fl, id) ==
+  LET a == id[1]  f == id[2]
+      up == IF RGe(ut[id], RZero) THEN u[id] ELSE RZero      \* part where the upwind velocity is >= 0
+      um == IF RLe(ut[id], RZero) THEN u[id] ELSE RZero      \* part where it is <= 0
+  IN  RAdd(RMul(up, TvdPsi(g, a, phi, fl, f, TRUE)), RMul(um, TvdPsi(g, a, phi, fl, f, FALSE)))
+TvdRHS(g, u, ut, phi, fl) ==
+  LET F == [id \in FaceIds(g) |-> TvdFlux(g, u, ut, phi, fl, id)]
+  IN  [c \in AllCells(g) |-> IF c \in Interior(g) THEN RNeg(DivAt(g, F, c)) ELSE RZero]
 
 \* sources and the transient term act on interior rows only
 LinearSourceRows(g, beta) ==
